@@ -151,8 +151,14 @@ def explore(
             if twice_every and i % twice_every == 0:
                 again = run_case(case)
                 acc.replayed_twice += 1
-                if again.obs != out.obs or again.ok != out.ok:
+                if again.ok != out.ok:
+                    # the verdict itself is not reproducible: harness error
                     acc.nondeterministic.append({"index": i, "case": case})
+                elif again.obs != out.obs:
+                    # same verdict, different incidental observation (e.g. a
+                    # file name that embeds a process id): counted, not an error
+                    acc.counters["observation_varied_between_two_runs"] = \
+                        acc.counters.get("observation_varied_between_two_runs", 0) + 1
 
     def merge(total: Report, part: Report) -> None:
         total.merge(part)
@@ -223,7 +229,8 @@ def write_evidence(
         "exhaustive": bool(exhaustive and not rep.caps),
         "bounds": jsonable(bounds),
         "caps_hit": rep.caps,
-        "replayed_twice_identical": rep.replayed_twice - len(rep.nondeterministic),
+        "replayed_twice_identical": rep.replayed_twice - len(rep.nondeterministic)
+        - rep.counters.get("observation_varied_between_two_runs", 0),
         "counters": jsonable(rep.counters),
         "known_findings_observed": known_seen,
         "violation_signatures": jsonable(rep.viol_sigs),
